@@ -245,6 +245,13 @@ fn judge(case: &Case) -> (Verdict, Obs) {
     let mut enabled: Vec<bool> = case.rules.iter().map(|r| r.enabled).collect();
     let mut focus: BTreeSet<String> = BTreeSet::new();
     focus.insert(engine.get_active_agenda_group().to_string());
+    // the focus stack as the API documents it: giving a group the focus moves it to the top,
+    // pop returns to the group below (never below MAIN), clear leaves only MAIN
+    let mut stack: Vec<String> = vec!["MAIN".to_string()];
+    fn stack_focus(stack: &mut Vec<String>, g: &str) {
+        stack.retain(|x| x != g);
+        stack.push(g.to_string());
+    }
     let mut noloop_fired: BTreeSet<String> = BTreeSet::new();
     let mut ever_fired: BTreeSet<String> = BTreeSet::new();
     // lock-on-active: firings since the last (possible) activation of the rule's group, and how that activation happened
@@ -275,6 +282,7 @@ fn judge(case: &Case) -> (Verdict, Obs) {
                     return (Some(("focus-call-not-honoured", "set_agenda_focus".into(), format!("call #{}: after set_agenda_focus({:?}) the active group is {:?}", ci, g, got))), obs);
                 }
                 focus = [got].into_iter().collect();
+                stack_focus(&mut stack, g);
                 activate(g, "set_agenda_focus", &mut loa_count, &mut last_activation);
             }
             Call::Activate(g) => {
@@ -285,11 +293,25 @@ fn judge(case: &Case) -> (Verdict, Obs) {
                 }
                 focus = [got].into_iter().collect();
                 activated_by_queueing_api.insert(g.clone());
+                stack_focus(&mut stack, g);
                 activate(g, "activate_agenda_group", &mut loa_count, &mut last_activation);
             }
             Call::Pop => {
                 let _ = engine.pop_agenda_focus();
                 let got = engine.get_active_agenda_group().to_string();
+                if stack.len() > 1 {
+                    stack.pop();
+                }
+                if stack.last() != Some(&got) {
+                    return (
+                        Some((
+                            "focus-stack",
+                            "pop-returns-to-the-wrong-group".into(),
+                            format!("call #{}: pop_agenda_focus() made {:?} the active group; the focus history leaves the stack {:?}", ci, got, stack),
+                        )),
+                        obs,
+                    );
+                }
                 // returning to a group is not an activation of it (O5): the lock stays
                 focus = [got].into_iter().collect();
             }
@@ -300,6 +322,7 @@ fn judge(case: &Case) -> (Verdict, Obs) {
                     return (Some(("focus-call-not-honoured", "clear_agenda_focus".into(), format!("call #{}: after clear_agenda_focus() the active group is {:?}", ci, got))), obs);
                 }
                 focus = [got].into_iter().collect();
+                stack = vec!["MAIN".to_string()];
             }
             Call::ResetNoLoop => {
                 engine.reset_no_loop_tracking();
@@ -333,6 +356,7 @@ fn judge(case: &Case) -> (Verdict, Obs) {
             Call::WorkflowStep(g) => {
                 // set focus to g, then execute at the current time
                 focus = [g.clone()].into_iter().collect();
+                stack_focus(&mut stack, g);
                 activate(g, "execute_workflow_step", &mut loa_count, &mut last_activation);
                 exec_t = Some(None);
             }
@@ -566,6 +590,7 @@ fn judge(case: &Case) -> (Verdict, Obs) {
                             focus.insert(ng.clone());
                             pending_focus = Some(ng.clone());
                             activated_by_queueing_api.insert(ng.clone());
+                            stack_focus(&mut stack, ng);
                             obs.focus_changes_by_action += 1;
                             activate(ng, "ActivateAgendaGroup-action", &mut loa_count, &mut last_activation);
                         }
@@ -579,6 +604,20 @@ fn judge(case: &Case) -> (Verdict, Obs) {
         }
         // ---- call boundary: re-read the focus from the engine
         let got = engine.get_active_agenda_group().to_string();
+        if matches!(res, Ok(Ok(()))) && stack.last() != Some(&got) {
+            return (
+                Some((
+                    "focus-stack",
+                    "active-group-after-execute-is-not-the-top-of-the-stack".into(),
+                    format!("call #{}: after the call the active group is {:?}; set/activate calls and ActivateAgendaGroup actions so far leave the stack {:?}", ci, got, stack),
+                )),
+                obs,
+            );
+        }
+        if !matches!(res, Ok(Ok(()))) {
+            // an aborted run may have applied only some of its actions: resynchronise
+            stack_focus(&mut stack, &got);
+        }
         focus = [got.clone()].into_iter().collect();
         if let Call::WorkflowStep(_) = call {
             activate(&got, "execute_workflow_step", &mut loa_count, &mut last_activation);
@@ -846,6 +885,7 @@ impl Check for C02 {
         vec![
             "attributes are set on the parsed Rule objects (not through GRL attribute syntax) so that the check is independent of C04's parser findings".into(),
             "the focused group at a call boundary is what get_active_agenda_group() reports; inside a run an ActivateAgendaGroup action may take effect immediately or at the next pass (both accepted)".into(),
+            "focus stack as documented on the API (set/activate moves the group to the top, pop returns to the group below but never below MAIN, clear leaves MAIN): after pop and after every completed execute the reported active group must be the top of that stack".into(),
             "date windows: firing strictly before `effective` or strictly after `expires` is a violation; exactly at `expires` is not judged".into(),
             "lock-on-active: an activation of a group is one set_agenda_focus / activate_agenda_group / execute_workflow_step call or one executed ActivateAgendaGroup action naming it (DESIGN O5); focus returning to a group through pop/clear is not an activation".into(),
             "activation-group 'highest' clause only judges higher-ranked members that were certainly eligible (enabled, inside the window, focus unambiguous, never blocked)".into(),
